@@ -29,7 +29,7 @@ def block_sizes(n):
     return sorted(set(b for b in (1, 2, 3, n - 1, n, n + 1) if b >= 1))
 
 
-def make_ops(rng, n, blocks=False, chunks=False, singles=()):
+def make_ops(rng, n, blocks=False, chunks=False, singles=(), max_singles=3):
     """Sub-batches of range(n): the whole batch, a split A + B, a permutation, a duplicated item, singletons (a random
     one and every index of `singles` = the boundary items of the case), and the block / chunk size variants."""
     full = list(range(n))
@@ -41,7 +41,7 @@ def make_ops(rng, n, blocks=False, chunks=False, singles=()):
     ops.append({"tag": "perm", "idx": perm})
     j, pos = rng.randrange(n), rng.randint(0, n)
     ops.append({"tag": "dup", "idx": full[:pos] + [j] + full[pos:]})
-    for i in [rng.randrange(n)] + [i for i in singles][:3]:
+    for i in [rng.randrange(n)] + [i for i in singles][:max_singles]:
         ops.append({"tag": "single", "idx": [i]})
     if blocks or chunks:
         bs = block_sizes(n) if blocks else [None]
@@ -273,7 +273,10 @@ def gen_wasserstein(rng, combo=None, long_n=None, metric=None):
         c["vectors"] = vecs(rng, v, d)
         c["fit"] = dist_matrix(rng, 8, v)
         c["items"] = dist_matrix(rng, n, v)
+        deg = degenerate_rows(rng, c, counts=False)
+        n = len(c["items"])
     else:
+        deg = []
         if inp == "generator":
             p["generator_vector_dim"] = d
             p["generator_n_distributions"] = 8
@@ -290,7 +293,8 @@ def gen_wasserstein(rng, combo=None, long_n=None, metric=None):
             # chunk sizes and the rows it writes are compared with Model.kernel_written
             c["probe_chunks"] = sorted(set([1, 7, 255, 256, 257, n - 1, n, n + 1, rng.randint(2, n)]))
     else:
-        c["ops"] = make_ops(rng, n, blocks=(method != "HeuristicLinearAlgebra"), chunks=(method == "LOT_sinkhorn"))
+        c["ops"] = make_ops(rng, n, blocks=(method != "HeuristicLinearAlgebra"), chunks=(method == "LOT_sinkhorn"),
+                            singles=deg, max_singles=4)
     return c
 
 
@@ -306,12 +310,14 @@ def gen_sinkhorn(rng, long_n=None):
          "random_state": 0}
     c = {"est": "Sinkhorn", "params": p, "data_kind": "spmatrix", "vectors": vecs(rng, v, d),
          "fit": dist_matrix(rng, 8, v), "items": dist_matrix(rng, n, v)}
+    deg = degenerate_rows(rng, c, counts=False)
+    n = len(c["items"])
     if long_n:
         c["long"] = True
         c["ops"] = make_long_ops(rng, n, lot=False, chunk=rng.choice([32, 32, 13]))
         c["ops"] += [{"tag": "block", "idx": list(range(n)), "block": b, "chunk": 32} for b in (33, n - 1)]
     else:
-        c["ops"] = make_ops(rng, n, blocks=True, chunks=True)
+        c["ops"] = make_ops(rng, n, blocks=True, chunks=True, singles=deg, max_singles=4)
     return c
 
 
@@ -319,8 +325,11 @@ def gen_approx(rng):
     v, d = rng.choice([5, 7]), rng.choice([2, 3])
     n = rng.randint(4, 6)
     p = {"n_components": 2, "random_state": 0, "normalization_power": rng.choice([1.0, 0.66])}
-    return {"est": "ApproxWasserstein", "params": p, "data_kind": "spmatrix", "vectors": vecs(rng, v, d),
-            "fit": dist_matrix(rng, 8, v), "items": dist_matrix(rng, n, v), "ops": make_ops(rng, n)}
+    c = {"est": "ApproxWasserstein", "params": p, "data_kind": "spmatrix", "vectors": vecs(rng, v, d),
+         "fit": dist_matrix(rng, 8, v), "items": dist_matrix(rng, n, v)}
+    deg = degenerate_rows(rng, c, counts=False)
+    c["ops"] = make_ops(rng, len(c["items"]), singles=deg, max_singles=4)
+    return c
 
 
 def count_matrix(rng, n, f, allow_empty=False):
@@ -340,22 +349,30 @@ def gen_infoweight(rng):
     p = {"approx_prior": rng.random() < 0.5, "weight_power": rng.choice([1.0, 2.0]),
          "prior_strength": rng.choice([1e-4, 0.1])}
     c = {"est": "InfoWeight", "params": p, "data_kind": "counts", "fit": fit,
-         "items": count_matrix(rng, n, f, allow_empty=True), "ops": make_ops(rng, n)}
+         "items": count_matrix(rng, n, f, allow_empty=True)}
+    deg = degenerate_rows(rng, c, counts=True)
+    c["ops"] = make_ops(rng, len(c["items"]), singles=deg, max_singles=4)
     if rng.random() < 0.4:
         c["y"] = [i % 3 for i in range(len(fit))]          # supervised weights (fit(X, y))
     return c
+
+
+_rd_counter = [0]
 
 
 def gen_rowdenoise(rng):
     f = rng.choice([4, 6])
     fit = count_matrix(rng, 8, f) + [[1.0] * f]
     n = rng.randint(3, 6)
-    p = {"normalize": rng.random() < 0.5}
+    _rd_counter[0] += 1
+    p = {"normalize": _rd_counter[0] % 2 == 0}               # both settings in every run (False first)
     if rng.random() < 0.5:
         p.update({"em_background_prior": rng.choice([1.0, 5.0]), "em_prior_strength": rng.choice([0.3, 0.5, 0.0]),
                   "em_threshold": rng.choice([1e-8, 1e-5, 0.05]), "em_precision": rng.choice([1e-7, 1e-4])})
-    return {"est": "RowDenoise", "params": p, "data_kind": "counts", "fit": fit,
-            "items": count_matrix(rng, n, f), "ops": make_ops(rng, n)}
+    c = {"est": "RowDenoise", "params": p, "data_kind": "counts", "fit": fit, "items": count_matrix(rng, n, f)}
+    deg = degenerate_rows(rng, c, counts=True)
+    c["ops"] = make_ops(rng, len(c["items"]), singles=deg, max_singles=4)
+    return c
 
 
 def gen_cfc(rng):
@@ -365,8 +382,10 @@ def gen_cfc(rng):
     # n_components >= n_features: the fitted model is the identity (no compression learned)
     p = {"n_components": rng.choice([2, 2, 3, f]), "random_state": 0, "rescaling_power": rng.choice([0.5, 1.0]),
          "algorithm": rng.choice(["randomized", "arpack"])}
-    return {"est": "CFC", "params": p, "data_kind": "counts", "fit": fit,
-            "items": count_matrix(rng, n, f), "ops": make_ops(rng, n, singles=[0])}
+    c = {"est": "CFC", "params": p, "data_kind": "counts", "fit": fit, "items": count_matrix(rng, n, f)}
+    deg = degenerate_rows(rng, c, counts=True)
+    c["ops"] = make_ops(rng, len(c["items"]), singles=deg, max_singles=4)
+    return c
 
 
 def gen_sliding(rng):
@@ -386,6 +405,53 @@ def gen_sliding(rng):
         p["kernels"] = [rng.choice(["average", ["gaussian_weight", 1.0]])]
     return {"est": "SlidingWindow", "params": p, "data_kind": "numarrays", "fit": items[:2], "items": items,
             "ops": make_ops(rng, len(items), singles=boundary(items, lambda x: len(x) == w))}
+
+
+# ------------------------------------------------------------------ rows of degenerate shapes (matrix-input estimators)
+def degenerate_rows(rng, c, counts):
+    """Adds to the batch of a matrix-input case (RowDenoise, InfoWeight, CFC: counts; Wasserstein spmatrix, Sinkhorn,
+    ApproxWasserstein: distributions) rows of degenerate shapes:
+      * a row with exactly ONE stored entry,
+      * a row with one non-zero entry plus explicitly stored zeros (c["explicit_zeros"] = [[row, column], ...]; the
+        implementation side stores them in the CSR matrix),
+      * an all-equal row (every feature the same value),
+    one of them first, one in the middle, one last (in random assignment), the middle one right after a multi-entry row
+    of much larger mass (x256 counts / x1000 for distributions) and followed by a row of much smaller mass and by a
+    second one-entry row (so that every batch has a one-entry row preceded by ordinary rows of very different mass).
+    Returns the indices of the added degenerate rows (they are also transformed as singletons)."""
+    items = c["items"]
+    f = len(items[0])
+
+    def val():
+        return float(rng.choice([1, 2, 7])) if counts else round(rng.random() + 0.05, 3)
+
+    def one_entry():
+        r = [0.0] * f
+        r[rng.randrange(f)] = val()
+        return r
+    multi = [r for r in items if sum(1 for x in r if x != 0) >= 2]
+    src = list(rng.choice(multi)) if multi else [val() for _ in range(f)]
+    heavy = [x * (256.0 if counts else 1000.0) for x in src]
+    src2 = list(rng.choice(multi)) if multi else [val() for _ in range(f)]
+    if counts:
+        light = [1.0 if x != 0 else 0.0 for x in src2]
+    else:
+        light = [x * 0.001 for x in src2]
+    shapes = [("one", one_entry()), ("one+zeros", one_entry()),
+              ("equal", [float(rng.choice([1, 3])) if counts else rng.choice([1.0, 0.25])] * f)]
+    rng.shuffle(shapes)
+    h = rng.randint(0, len(items))
+    new = [shapes[0][1]] + items[:h] + [heavy, shapes[1][1], light, one_entry()] + items[h:] + [shapes[2][1]]
+    pos = {shapes[0][0]: 0, shapes[1][0]: h + 2, shapes[2][0]: len(new) - 1}
+    second_one = h + 4
+    i = pos["one+zeros"]
+    nz = [j for j, x in enumerate(new[i]) if x != 0][0]
+    zs = rng.sample([j for j in range(f) if j != nz], rng.choice([1, 2]))
+    c["items"] = new
+    c["explicit_zeros"] = [[i, j] for j in sorted(zs)]
+    c["degenerate"] = {"one": pos["one"], "one+zeros": i, "equal": pos["equal"], "one_after_heavy_and_light": second_one,
+                       "heavy": h + 1, "light": h + 3}
+    return [second_one, pos["one"], i, pos["equal"]]
 
 
 def sinkhorn_far_case(est):
@@ -408,7 +474,7 @@ CORPUS = [sinkhorn_far_case("Sinkhorn"), sinkhorn_far_case("Wasserstein")]
 GENS = [gen_ngram, gen_skipgram, gen_lz, gen_bpe, gen_hist, gen_kde, gen_distribution, gen_wasserstein, gen_sinkhorn,
         gen_approx, gen_infoweight, gen_rowdenoise, gen_cfc, gen_sliding]
 QUICK = {"Ngram": 4, "Skipgram": 4, "LZ": 6, "BPE": 6, "Histogram": 3, "KDE": 3, "Distribution": 2, "Wasserstein": 5,
-         "Sinkhorn": 2, "ApproxWasserstein": 2, "InfoWeight": 3, "RowDenoise": 3, "CFC": 3, "SlidingWindow": 4}
+         "Sinkhorn": 2, "ApproxWasserstein": 2, "InfoWeight": 3, "RowDenoise": 4, "CFC": 3, "SlidingWindow": 4}
 LOT_ESTS = ("Wasserstein", "Sinkhorn", "ApproxWasserstein")
 
 
@@ -522,6 +588,7 @@ def run(ctx, replay=None):
     else:
         mult = 1 if ctx.quick else 6
         _wass_counter[0] = 0
+        _rd_counter[0] = 0
         cases = list(CORPUS)
         for g in GENS:
             c0 = g(ctx.rng)
@@ -530,7 +597,11 @@ def run(ctx, replay=None):
                 cases.append(g(ctx.rng))
         cases += long_cases(ctx.rng, ctx.quick)
     ctx.coverage["rule"] = ("for each of the 14 row-wise estimators: random small fitted model + batch (any items: unseen tokens / "
-                            "phrases / codes / characters, empty and 1-element items, items without output entries); "
+                            "phrases / codes / characters, empty and 1-element items, items without output entries; for the "
+                            "matrix-input estimators (RowDenoise with normalize False and True, InfoWeight, CFC, Wasserstein "
+                            "spmatrix, Sinkhorn, ApproxWasserstein) every batch also holds a row with exactly one stored entry, a "
+                            "row with one entry plus explicitly stored zeros, an all-equal row -- first / middle / last, after a "
+                            "row of x256 (x1000) mass and before one of tiny mass -- and a second one-entry row after those); "
                             "sub-batches A, B (A+B = batch), a permutation, a duplicated item, singletons (a random one and the "
                             "boundary items), and the whole batch under block/chunk sizes {1,2,3,n-1,n,n+1} (memory_size / "
                             "sinkhorn_chunk_size / chunk_size); long batches (> 256 rows in one block of the LOT kernels, "
